@@ -232,9 +232,9 @@ func main() {
 		},
 		Cases: func(tier string) int {
 			if tier == "thorough" {
-				return 6400
+				return 5120
 			}
-			return 320
+			return 256
 		},
 		Run: run,
 		Floors: map[string]int64{"histories": 40, "flushes_compared": 400, "invalid_values_delivered": 300, "missing_profile_judgements": 500,
